@@ -358,15 +358,20 @@ def _vacuity(fam_path, box):
     try:
         want = {"TreeCopy_broken.cfg": "InvOtherRenderUnchanged",
                 "TreeCopy_broken_own.cfg": "InvOwnSymbols",
-                "TreeCopy_broken_loopvar.cfg": "InvAll"}
-        got = {}
-        for cfg, inv in want.items():
+                "TreeCopy_broken_loopvar.cfg": "InvAll",
+                "TreeCopy_broken_byname.cfg": "InvOwnSymbols"}
+        def one(cfg):
             res = core.run_tlc("TreeCopy.tla", cfg, env={"PV_FAMILY": fam_path},
-                               workers=2, check=False, timeout=1200)
+                               workers=1, check=False, timeout=1200, heap="2g")
+            return cfg, res
+        with concurrent.futures.ThreadPoolExecutor(len(want)) as exe:
+            results = list(exe.map(one, want))
+        got = {}
+        for cfg, res in results:
             got[cfg] = res.invariant_violated
-            if res.invariant_violated != inv:
+            if res.invariant_violated != want[cfg]:
                 raise core.MachineryError(
-                    f"vacuity check failed: {cfg} should violate {inv}, TLC "
+                    f"vacuity check failed: {cfg} should violate {want[cfg]}, TLC "
                     f"reported {res.invariant_violated or res.error}")
         box["vacuity"] = got
     except Exception as err:   # noqa  re-raised in the main thread
